@@ -18,6 +18,7 @@ EXPLANATION = (
     " (R5) inside the tail-call loop of execute_user_function only the loop-carried argument vector is read, never the initial call's arguments."
     ' (R7) both operands of every pattern/value zip in the matcher are plain forward iterators, and the suffix patterns are paired with the slice starting at len - suffix.len().'
     ' (R8) each match arm / function arm is tried against its own scratch environment; (R9) every *NonExhaustive* error is skipped only under an `arms.any(matches!(arm.pattern, Pattern::Wildcard))` flag - no wider catch-all predicate.'
+    ' (R10) broadcasting a scalar function over a matrix applies it to every element of matrix_like_values(source) in storage order (one push per element, errors propagated) and reassembles with (shape[0], shape[1]) of the source.'
 )
 
 
@@ -117,3 +118,5 @@ def run(F, rep, tier):
     trial_env_fresh(F, rep, "C16-R8", {"match_expression", "match_validate_arm_kinds", "execute_function_match_arms"}, 3)
     from rules.loopshape import c16_catch_all_predicate
     c16_catch_all_predicate(F, rep)
+    from rules.loopshape import c16_broadcast_shape
+    c16_broadcast_shape(F, rep)
